@@ -493,6 +493,13 @@ func (self *Core) runInstruction(instruction compiler.Instruction) *value.VmInte
 		case value.IntValueKind:
 			lInt := l.(value.ValueInt)
 			rInt := r.(value.ValueInt)
+			if rInt.Inner < 0 {
+				return self.fatalErr(
+					fmt.Sprintf("Negative shift count: %d", rInt.Inner),
+					value.Vm_ValueErrorKind,
+					self.parent.SourceMap(*self.callFrame()),
+				)
+			}
 			self.push(value.NewValueInt(lInt.Inner << rInt.Inner))
 		default:
 			panic("This value combination is unsupported")
@@ -505,6 +512,13 @@ func (self *Core) runInstruction(instruction compiler.Instruction) *value.VmInte
 		case value.IntValueKind:
 			lInt := l.(value.ValueInt)
 			rInt := r.(value.ValueInt)
+			if rInt.Inner < 0 {
+				return self.fatalErr(
+					fmt.Sprintf("Negative shift count: %d", rInt.Inner),
+					value.Vm_ValueErrorKind,
+					self.parent.SourceMap(*self.callFrame()),
+				)
+			}
 			self.push(value.NewValueInt(lInt.Inner >> rInt.Inner))
 		default:
 			panic("This value combination is unsupported")
